@@ -380,6 +380,8 @@ def seq_classify(rq, impl):
 
 
 PROPS["C19"] = {
+    "also": ["C19W"],
+    "needs_bin": True,
     "theorems": [
         "Lace.C19.reset_eq_empty",
         "Lace.C19.assemble_after_reset",
